@@ -445,28 +445,40 @@ def compile_units(drv, units, want):
     return units
 
 
+RUST_KEYWORDS = set("""as break const continue else enum extern false fn for if impl in let loop match mod move mut pub ref return
+static struct trait true type unsafe use where while async await dyn abstract become box do final macro override priv
+typeof unsized virtual yield try gen""".split())
+
+
+def rs_ident(name):
+    """how Rust source names an item the generator called `name` (raw identifier for a keyword)"""
+    return "r#" + name if name in RUST_KEYWORDS else name
+
+
 def registry_lines(u):
     m = u.mod
     L = []
     for t in u.types():
-        L.append('    r.packet::<%s::%s>("%s", "%s");' % (m, t, u.name, t))
+        rt = rs_ident(t)
+        L.append('    r.packet::<%s::%s>("%s", "%s");' % (m, rt, u.name, t))
         ch = u.chain(t)
         for anc in ch[:-1]:
-            L.append('    r.conv::<%s::%s, %s::%s>("%s", "%s", "%s");' % (m, t, m, anc["id"], u.name, t, anc["id"]))
+            L.append('    r.conv::<%s::%s, %s::%s>("%s", "%s", "%s");' % (m, rt, m, rs_ident(anc["id"]), u.name, t, anc["id"]))
         if u.children(t):
             L.append('    r.specialize::<%s::%s, _>("%s", "%s", |p| p.specialize().map(|c| serde_json::to_value(&c).unwrap()));'
-                     % (m, t, u.name, t))
+                     % (m, rt, u.name, t))
     for e in u.enums():
         w = e["width"]
         if not 1 <= w <= 64:
             continue
         b = backing(w)
-        L.append('    r.enumeration::<%s::%s, u%d>("%s", "%s");' % (m, e["id"], b, u.name, e["id"]))
+        re_ = rs_ident(e["id"])
+        L.append('    r.enumeration::<%s::%s, u%d>("%s", "%s");' % (m, re_, b, u.name, e["id"]))
         for n in (8, 16, 32, 64):
             if n > w:
-                L.append('    r.widen::<%s::%s, u%d, i%d>("%s", "%s", "i%d");' % (m, e["id"], b, n, u.name, e["id"], n))
+                L.append('    r.widen::<%s::%s, u%d, i%d>("%s", "%s", "i%d");' % (m, re_, b, n, u.name, e["id"], n))
             if n >= w and n != b:
-                L.append('    r.widen::<%s::%s, u%d, u%d>("%s", "%s", "u%d");' % (m, e["id"], b, n, u.name, e["id"], n))
+                L.append('    r.widen::<%s::%s, u%d, u%d>("%s", "%s", "u%d");' % (m, re_, b, n, u.name, e["id"], n))
     return L
 
 
@@ -2393,11 +2405,16 @@ def norm_msg(m):
 def check_c10(ctx):
     rep = Report("C10", ctx.tier, ctx.seed)
     rng = random.Random(ctx.seed * 31337 + 5)
-    descs = kit.build(ctx.tier) + kit.schema_descs(ctx.tier) + kit.c10_descs(ctx.tier)
+    # (builder descriptions: judged for a backend inside its *clean* class only, see spec/PdlDev.tla)
+    descs = kit.build(ctx.tier) + kit.schema_descs(ctx.tier) + kit.c10_descs(ctx.tier) + builder_descs(ctx.tier, ctx.seed, "rust")
     units = make_units(descs)
     compile_units(ctx.driver(), units, ["parse", "analyze", "json", "rust", "python", "cxx"])
     jobs = [dict(d=k + 1, type="", anc="", mode="info", n=0) for k, u in enumerate(units) if u.status == "accepted"]
     _, info = run_jobs(ctx, units, jobs, rep, tag="c10info")
+    for u in units:
+        if u.desc["name"].startswith("g_") and u.name in info:
+            inf = info[u.name]
+            inf["py"], inf["cxx"], inf["java"] = inf.get("pyclean"), inf.get("cxxclean"), inf.get("javaclean")
     # target compilation of what was generated, inside each backend's supported class
     rs_units = [u for u in units if u.status == "accepted" and info.get(u.name, {}).get("rust")]
     saved = {u.name: u.status for u in units}
@@ -2673,7 +2690,7 @@ def check_c11(ctx):
     rep = Report("C11", ctx.tier, ctx.seed)
     rng = random.Random(ctx.seed + 4711)
     quick = ctx.tier == "quick"
-    units = make_units(kit.build(ctx.tier))
+    units = make_units(kit.build(ctx.tier) + builder_descs(ctx.tier, ctx.seed, "rust"))
     K = 3 if quick else 12
     reqs = [dict(rid=u.idx, name=u.desc["name"] + ".pdl", src=u.src, want=["analyze", "json", "rust", "python", "cxx"], repeat=K)
             for u in units]
